@@ -294,7 +294,8 @@ def normal(p, quats=(), lin=False):
     return p
 
 
-DECISION_SECONDS = float(os.environ.get("VERIF_DECISION_SECONDS", "60"))
+STATS = {"decisions": 0, "timeouts": 0, "slowest_s": 0.0}
+DECISION_SECONDS = float(os.environ.get("VERIF_DECISION_SECONDS", "20"))     # check.py raises it for the thorough tier
 
 
 def decide(p, q, quats=(), maxdeg=None):
@@ -304,17 +305,24 @@ def decide(p, q, quats=(), maxdeg=None):
     old_deadline = CFG.deadline
     if maxdeg:
         CFG.maxdeg = maxdeg
+    t0 = time.time()
     if old_deadline is None:
-        CFG.deadline = time.time() + DECISION_SECONDS
+        # after a decision has run out of time, later ones in this run get a short bound: one unforeseen program
+        # must not cost (number of cells) x DECISION_SECONDS
+        CFG.deadline = t0 + (DECISION_SECONDS if STATS["timeouts"] == 0 else max(5.0, DECISION_SECONDS / 8))
     try:
         return _decide(p, q, quats)
     except WorkExceeded:
         if old_deadline is not None:
             raise
+        STATS["timeouts"] += 1
         return UNKNOWN
     finally:
         CFG.maxdeg = old
         CFG.deadline = old_deadline
+        if old_deadline is None:
+            STATS["decisions"] += 1
+            STATS["slowest_s"] = max(STATS["slowest_s"], time.time() - t0)
 
 
 def _unify_half_angles(a, b):
